@@ -77,3 +77,208 @@ Proof.
       unfold chunk_pairs in H. apply in_combine_l in H. specialize (Hb id H).
       apply andb_false_iff in Er as [Er | Er]; [apply N.leb_gt in Er | apply N.leb_gt in Er]; lia.
 Qed.
+
+(* ------------------------------------------------------------------ *)
+(* RowIdIndex::new when no two chunk ranges overlap                    *)
+(* ------------------------------------------------------------------ *)
+(* the live rows of a fragment: (row id, address) for every non-deleted row offset *)
+Definition live_pairs (l deleted : list N) (co sa : N) : list (N * N) :=
+  map (fun p => (snd p, sa + (fst p - co))) (filter (fun p => negb (memN (fst p) deleted)) (enum_from co l)).
+
+Definition frag_live (f : frag) : list (N * N) :=
+  let '(fid, q, deleted) := f in live_pairs (rs_iter q) deleted 0 (fid * two32).
+
+Lemma live_pairs_app : forall l1 l2 d co sa,
+  live_pairs (l1 ++ l2) d co sa = live_pairs l1 d co sa ++ live_pairs l2 d (co + len_N l1) (sa + len_N l1).
+Proof.
+  intros. unfold live_pairs. rewrite enum_from_app, filter_app, map_app. f_equal.
+  apply map_ext_in. intros p Hp. apply filter_In in Hp as [Hp _]. apply enum_from_bounds in Hp. f_equal. lia.
+Qed.
+
+Lemma enum_from_shift : forall l a d, enum_from (a + d) l = map (fun p => (fst p + d, snd p)) (enum_from a l).
+Proof.
+  induction l as [|x l IH]; intros a d; [reflexivity|]. cbn [enum_from map fst snd]. f_equal.
+  replace (a + d + 1) with (a + 1 + d) by lia. apply IH.
+Qed.
+
+Lemma enumerate_enum : forall l, enumerate l = enum_from 0 l.
+Proof. intro l. unfold enumerate. apply (combine_seq_enum l 0). Qed.
+
+Lemma filter_map_comm {A B} : forall (f : B -> bool) (g : A -> B) l, filter f (map g l) = map g (filter (fun x => f (g x)) l).
+Proof. intros f g l. induction l as [|x l IH]; [reflexivity|]. cbn [map filter]. destruct (f (g x)); cbn [map]; rewrite IH; reflexivity. Qed.
+
+Lemma map_snd_filter_subseq : forall (f : N * N -> bool) l b, subseq (map snd (filter f (enum_from b l))) l.
+Proof.
+  intros f. induction l as [|x l IH]; intro b; [constructor|]. cbn [enum_from filter].
+  destruct (f (b, x)); cbn [map snd]; constructor; apply IH.
+Qed.
+
+Lemma combine_map_pair {A} : forall (l : list A) (f g : A -> N), combine (map f l) (map g l) = map (fun x => (f x, g x)) l.
+Proof. intros l f g. induction l as [|x l IH]; [reflexivity|]. cbn [map combine]. f_equal. assumption. Qed.
+
+Definition small_addr (sa n : N) : Prop := sa + n < 2 ^ 62 - 6.
+
+Lemma decompose_go_spec : forall q deleted co sa, rseq_wf q = true -> ids_ok (rs_iter q) ->
+  small_addr sa (len_N (rs_iter q)) ->
+  exists chunks, decompose_go q deleted co sa = Ok chunks
+    /\ Forall chunk_ok chunks /\ Forall (fun c => c_lo c <= c_hi c) chunks
+    /\ flat_map chunk_pairs chunks = live_pairs (rs_iter q) deleted co sa.
+Proof.
+  induction q as [|sg q IH]; intros deleted co sa Hwf Hok Hsm.
+  - exists []. split; [reflexivity|]. repeat split; constructor.
+  - apply rseq_wf_cons in Hwf as [H1 H2]. rewrite rs_iter_cons in *.
+    assert (Hok1 : ids_ok (seg_iter sg)) by (eapply ids_ok_subseq; [apply subseq_app_l | exact Hok]).
+    assert (Hok2 : ids_ok (rs_iter q)) by (eapply ids_ok_subseq; [apply subseq_app_r | exact Hok]).
+    unfold small_addr in *. rewrite len_N_app in Hsm.
+    cbn [decompose_go]. rewrite seg_len_iter by assumption. rewrite enumerate_enum.
+    set (active := filter (fun p => negb (memN (co + fst p) deleted)) (enum_from 0 (seg_iter sg))).
+    destruct (IH deleted (co + len_N (seg_iter sg)) (sa + len_N (seg_iter sg)) H2 Hok2) as [more [Em [Hcm [Hlm Hpm]]]]; [unfold small_addr; lia|].
+    rewrite Em.
+    assert (Hlive : map (fun p => (snd p, sa + fst p)) active = live_pairs (seg_iter sg) deleted co sa).
+    { unfold live_pairs, active. pose proof (enum_from_shift (seg_iter sg) 0 co) as Hsh.
+      replace (0 + co) with co in Hsh by lia. rewrite Hsh.
+      rewrite filter_map_comm. rewrite map_map. cbn [fst snd].
+      rewrite (filter_ext (fun x : N * N => negb (memN (fst x + co) deleted)) (fun p => negb (memN (co + fst p) deleted)))
+        by (intro; do 2 f_equal; lia).
+      apply map_ext. intros p. f_equal. lia. }
+    assert (Hhere : exists here : list chunk,
+       (match active with
+        | [] => Ok []
+        | _ => do rs <- from_slice (map snd active);
+               do ad <- from_slice (map (fun p => sa + fst p) active);
+               do cov <- seg_range rs;
+               match cov with None => Ok [] | Some c => Ok [(c, (rs, ad))] end
+        end) = Ok here
+       /\ Forall chunk_ok here /\ Forall (fun c => c_lo c <= c_hi c) here
+       /\ flat_map chunk_pairs here = map (fun p => (snd p, sa + fst p)) active).
+    { destruct active as [|a0 act] eqn:Ea.
+      - exists (@nil chunk). split; [reflexivity|]. repeat split; constructor.
+      - rewrite <- Ea in *.
+        assert (Hids : ids_ok (map snd active)) by (eapply ids_ok_subseq; [apply map_snd_filter_subseq | exact Hok1]).
+        destruct (ids_ok_from_slice _ Hids) as [rs [Ers [Hwrs Hirs]]].
+        assert (Hfst : map fst active = filter (fun i => negb (memN (co + i) deleted)) (range_iter 0 (len_N (seg_iter sg)))).
+        { unfold active. rewrite <- (filter_map_comm (fun i => negb (memN (co + i) deleted)) fst). rewrite enum_from_fst.
+          unfold range_iter, len_N. do 2 f_equal. lia. }
+        assert (Haddr : ids_ok (map (fun p => sa + fst p) active)).
+        { rewrite <- (map_map fst (fun i => sa + i)). rewrite Hfst.
+          set (offs := filter (fun i => negb (memN (co + i) deleted)) (range_iter 0 (len_N (seg_iter sg)))).
+          assert (Hoffs : forall i, In i offs -> i < len_N (seg_iter sg)).
+          { intros i Hi. apply filter_In in Hi as [Hi _]. apply range_iter_In in Hi. lia. }
+          assert (Hso : sincr offs) by (apply sincr_filter, sincr_range_iter).
+          assert (Hsm' : sincr (map (fun i => sa + i) offs)).
+          { clear -Hso. induction offs as [|x l IHl]; [constructor|]. apply sincr_cons_iff in Hso as [Hs1 Hs2].
+            cbn [map]. apply sincr_cons_iff. split; [apply IHl; assumption|].
+            intros y Hy. apply in_map_iff in Hy as [z [<- Hz]]. specialize (Hs2 z Hz). lia. }
+          split; [apply sincr_NoDup; assumption|]. split.
+          - apply Forall_forall. intros x Hx. apply in_map_iff in Hx as [i [<- Hi]]. specialize (Hoffs i Hi).
+            change (2 ^ 62 - 6) with 4611686018427387898 in Hsm. unfold u64max, two64. lia.
+          - intros x y Hx Hy. apply in_map_iff in Hx as [i [<- Hi]]. apply in_map_iff in Hy as [j [<- Hj]].
+            pose proof (Hoffs i Hi). pose proof (Hoffs j Hj). lia. }
+        destruct (ids_ok_from_slice _ Haddr) as [ad [Ead [Hwad Hiad]]].
+        rewrite Ers, Ead. cbn [obind].
+        assert (Hne : seg_iter rs <> []) by (rewrite Hirs, Ea; discriminate).
+        destruct (seg_range_contains rs Hwrs Hne) as [lo [hi [Hr Hb]]]. rewrite Hr. cbn [obind].
+        exists [((lo, hi), (rs, ad)) : chunk]. split; [reflexivity|].
+        assert (Hlohi : lo <= hi).
+        { destruct (seg_iter rs) as [|v vs] eqn:Ev; [congruence|]. specialize (Hb v (or_introl eq_refl)). lia. }
+        split; [|split].
+        + constructor; [|constructor]. unfold chunk_ok. cbn [fst snd c_lo c_hi]. split; [assumption|]. split; [assumption|].
+          split; [rewrite Hirs, Hiad; unfold len_N; rewrite !map_length; reflexivity|].
+          split; [rewrite Hirs; apply Hids | assumption].
+        + constructor; [assumption | constructor].
+        + cbn [flat_map]. rewrite app_nil_r. unfold chunk_pairs. cbn [fst snd]. rewrite Hirs, Hiad. apply combine_map_pair. }
+    destruct Hhere as [here [Eh [Hch [Hlh Hph]]]]. rewrite Eh. cbn [obind].
+    exists (here ++ more). split; [reflexivity|]. split; [apply Forall_app; split; assumption|].
+    split; [apply Forall_app; split; assumption|].
+    rewrite flat_map_app, Hph, Hpm, Hlive, live_pairs_app. reflexivity.
+Qed.
+
+Definition frag_ok (f : frag) : Prop :=
+  let '(fid, q, _) := f in rseq_wf q = true /\ ids_ok (rs_iter q) /\ small_addr (fid * two32) (len_N (rs_iter q)).
+
+Lemma decompose_all_spec : forall frags, Forall frag_ok frags ->
+  exists chunks, decompose_all frags = Ok chunks
+    /\ Forall chunk_ok chunks /\ Forall (fun c => c_lo c <= c_hi c) chunks
+    /\ flat_map chunk_pairs chunks = flat_map frag_live frags.
+Proof.
+  induction frags as [|f frags IH]; intro Hok.
+  - exists []. split; [reflexivity|]. repeat split; constructor.
+  - inversion Hok as [|? ? Hf Hrest]; subst. destruct (IH Hrest) as [more [Em [Hcm [Hlm Hpm]]]].
+    destruct f as [[fid q] deleted]. destruct Hf as [Hw [Hi Hs]].
+    destruct (decompose_go_spec q deleted 0 (fid * two32) Hw Hi Hs) as [here [Eh [Hch [Hlh Hph]]]].
+    cbn [decompose_all decompose_sequence]. rewrite Eh. cbn [obind]. rewrite Em. cbn [obind].
+    exists (here ++ more). split; [reflexivity|]. split; [apply Forall_app; split; assumption|].
+    split; [apply Forall_app; split; assumption|].
+    rewrite flat_map_app, Hph, Hpm. reflexivity.
+Qed.
+
+(* consecutive chunks (in processing order) do not overlap *)
+Fixpoint asc_disjoint (cs : list chunk) : bool :=
+  match cs with
+  | c1 :: (c2 :: _) as r => (c_hi c1 <? c_lo c2) && asc_disjoint r
+  | _ => true
+  end.
+
+Lemma prep_go_disjoint : forall rest lastc out r0, asc_disjoint (lastc :: rest) = true ->
+  prep_go rest (NonOv lastc :: out) r0 [] = Ok (rev out ++ map NonOv (lastc :: rest)).
+Proof.
+  induction rest as [|ch rest IH]; intros lastc out r0 H.
+  - cbn [prep_go map]. cbn [rev]. reflexivity.
+  - cbn [asc_disjoint] in H. apply andb_true_iff in H as [Hlt Hrest]. apply N.ltb_lt in Hlt.
+    cbn [prep_go raw_end]. replace (c_lo ch <=? c_hi lastc) with false by (symmetry; apply N.leb_gt; assumption).
+    rewrite IH by assumption. cbn [rev map]. rewrite <- app_assoc. reflexivity.
+Qed.
+
+Lemma finalize_nonov : forall cs, finalize (map NonOv cs) = Ok cs.
+Proof. induction cs as [|c cs IH]; [reflexivity|]. cbn [map finalize]. rewrite IH. reflexivity. Qed.
+
+Lemma insert_by_In {A} : forall (key : A -> N) x l y, In y (insert_by key x l) <-> y = x \/ In y l.
+Proof.
+  intros key x l y. induction l as [|z l IH]; cbn [insert_by In]; [intuition congruence|].
+  destruct (key x <=? key z); cbn [In]; [intuition congruence|]. rewrite IH. intuition congruence.
+Qed.
+
+Lemma processing_order_In : forall chunks c, In c (processing_order chunks) <-> In c chunks.
+Proof.
+  intros chunks c. unfold processing_order. rewrite <- in_rev. unfold stable_sort_by.
+  induction chunks as [|x l IH]; [reflexivity|]. cbn [fold_right In]. rewrite insert_by_In, IH. intuition congruence.
+Qed.
+
+Lemma asc_disjoint_chunks : forall cs, asc_disjoint cs = true -> Forall (fun c => c_lo c <= c_hi c) cs -> disjoint_chunks cs.
+Proof.
+  induction cs as [|c1 cs IH]; intros Ha Hl; [exact I|]. inversion Hl as [|? ? Hl1 Hl2]; subst.
+  cbn [disjoint_chunks]. destruct cs as [|c2 cs']; [split; [intros c' [] | exact I]|].
+  cbn [asc_disjoint] in Ha. apply andb_true_iff in Ha as [Hlt Hrest]. apply N.ltb_lt in Hlt.
+  specialize (IH Hrest Hl2). split; [|assumption].
+  intros c' [<- | Hin]; [left; assumption|]. left.
+  cbn [disjoint_chunks] in IH. destruct IH as [IH1 _]. inversion Hl2; subst.
+  destruct (IH1 c' Hin) as [H | H]; [lia|].
+  (* c' after c2 in an ascending chain cannot end before c2 starts *)
+  exfalso. clear -Hrest Hin H Hl2. revert c2 Hrest H Hl2. induction cs' as [|c3 cs IHc]; intros c2 Hrest H Hl2; [destruct Hin|].
+  cbn [asc_disjoint] in Hrest. apply andb_true_iff in Hrest as [Hlt Hr]. apply N.ltb_lt in Hlt.
+  inversion Hl2 as [|? ? Ha Hb]; subst. inversion Hb as [|? ? Hc Hd]; subst.
+  destruct Hin as [<- | Hin]; [lia|]. apply (IHc Hin c3 Hr); [lia | assumption].
+Qed.
+
+Theorem index_new_no_overlap : forall frags chunks, Forall frag_ok frags ->
+  decompose_all frags = Ok chunks -> asc_disjoint (processing_order chunks) = true ->
+  exists idx, index_new frags = Ok idx /\
+    forall id addr, index_get idx id = Some addr <-> In (id, addr) (flat_map frag_live frags).
+Proof.
+  intros frags chunks Hok Ed Hasc. destruct (decompose_all_spec frags Hok) as [chunks' [Ed' [Hc [Hl Hp]]]].
+  rewrite Ed in Ed'. inversion Ed'; subst chunks'. clear Ed'.
+  unfold index_new. rewrite Ed. cbn [obind]. unfold prep_index_chunks.
+  set (P := processing_order chunks) in *.
+  assert (HcP : Forall chunk_ok P).
+  { apply Forall_forall. intros c Hc'. apply (proj1 (processing_order_In chunks c)) in Hc'. rewrite Forall_forall in Hc. apply Hc. assumption. }
+  assert (HlP : Forall (fun c => c_lo c <= c_hi c) P).
+  { apply Forall_forall. intros c Hc'. apply (proj1 (processing_order_In chunks c)) in Hc'. rewrite Forall_forall in Hl. apply Hl. assumption. }
+  assert (HpP : forall pr, In pr (index_pairs P) <-> In pr (flat_map frag_live frags)).
+  { intro pr. rewrite <- Hp. unfold index_pairs. rewrite !in_flat_map. split; intros [c [H1 H2]]; exists c; split; try assumption.
+    - apply (proj1 (processing_order_In chunks c)). assumption.
+    - apply (proj2 (processing_order_In chunks c)). assumption. }
+  exists P. split.
+  - destruct P as [|first rest] eqn:EP; [reflexivity|].
+    rewrite (prep_go_disjoint rest first [] (0, 0) Hasc). cbn [obind rev app]. apply finalize_nonov.
+  - intros id addr. rewrite <- HpP. apply index_get_spec; [assumption | apply asc_disjoint_chunks; assumption].
+Qed.
